@@ -10,7 +10,7 @@ LEVEL = "exploration"
 SHARDS = {"quick": 8, "thorough": 16}
 TIMEOUT = {"quick": 900, "thorough": 7200}
 THOROUGH_MULT = 2   # thorough budgets below are multiplied by this (sized for roughly five minutes on 16 cores)
-REQUIRED = {"generate": 40, "rows_decoded": 40, "json_roundtrip": 40, "wasabi": 40, "sequence": 100, "long_listing": 8}
+REQUIRED = {"generate": 40, "rows_decoded": 40, "json_roundtrip": 40, "wasabi": 40, "sequence": 100, "long_listing": 8, "export_files": 16}
 ANCHORS = ['paper_wallet:PaperWallet.generate', 'paper_wallet:PaperWallet.json', 'paper_wallet:PaperWallet.wasabi_json', 'paper_wallet:PaperWallet.group', 'paper_wallet:PaperWallet.master_data']
 RULE = ("wallets from random secrets through all constructors x both networks x accounts {0,1,2^31-2,2^31-1,random} x "
         "intervals {(0,0),(0,1),(7,8),(s,s+r),(2^31-3,2^31-1),(2^31-1,2^31)} inside [0,2^31), 0..40 rows; everything recomputed "
@@ -228,6 +228,48 @@ def judge_sequence(ctx, case):
                       cls="seq|after-scribble|raised", mech="C06.sequence.raised")
 
 
+def judge_export_files(ctx, case):
+    """The file renderings (export_wallet / export_wasabi): whatever the path held before - nothing, a longer document, a
+    shorter one - the file afterwards parses back to exactly the data that was exported."""
+    import os
+    import shutil
+    import tempfile
+    try:
+        w, m, mn, pw, tn = build_wallet(case)
+    except Exception as ex:  # noqa
+        return ctx.judge("export_files", False, case, "wallet", ex, cls="export|raised", mech="C06.export.raised")
+    d = tempfile.mkdtemp(prefix="vp-c06-")
+    try:
+        path = os.path.join(d, "wallet.json")
+        bad = []
+        for step, (kind, acct, s, e, indent) in enumerate(case["exports"]):
+            try:
+                if kind == "wasabi":
+                    w.export_wasabi(file_path=path, indent=indent)
+                    want = json.loads(w.wasabi_json())
+                else:
+                    data = w.generate(account=acct, interval=(s, e))
+                    w.export_wallet(file_path=path, indent=indent, data=data)
+                    want = json.loads(json.dumps(data))
+                text = open(path).read()
+                try:
+                    got = json.loads(text)
+                except ValueError as ex:
+                    bad.append(("step%d.%s.unparsable" % (step, kind), "JSON document", "%s ... (%d chars)" % (str(ex)[:60], len(text))))
+                    break
+                if got != want:
+                    bad.append(("step%d.%s.differs" % (step, kind), None, None))
+                    break
+            except Exception as ex:  # noqa
+                bad.append(("step%d.%s.raised" % (step, kind), "file", ex))
+                break
+        return ctx.judge("export_files", not bad, case, "each file parses back to what was exported", bad,
+                         cls="export|%s" % ">".join("%s%d" % (k[0], max(0, e_ - s_)) for k, a_, s_, e_, i_ in case["exports"]),
+                         mech="C06.export." + (bad[0][0].split(".", 1)[1] if bad else ""))
+    finally:
+        shutil.rmtree(d, ignore_errors=True)
+
+
 LONG_SIZES = (255, 256, 257, 300, 500, 501, 512, 513, 640, 1000, 1001, 1024, 1025, 2048, 2049, 4097)
 
 
@@ -355,6 +397,18 @@ def run(ctx):
         judge_wallet(ctx, gen_case(rnd, j + ctx.shard * 7))
     for j in range(ctx.scale(96, 4000)):
         judge_sequence(ctx, gen_sequence(rnd, j + ctx.shard * 3))
+    for j in range(ctx.scale(24, 1200)):
+        case = gen_case(rnd, j)
+        acct = case["account"]
+        exports = []
+        for _k in range(rnd.randrange(2, 5)):
+            if rnd.random() < 0.3:
+                exports.append(("wasabi", 0, 0, 0, rnd.choice([None, 4])))
+            else:
+                s0 = rnd.choice([0, 0, 5, H - 9])
+                exports.append(("wallet", acct, s0, s0 + rnd.choice([0, 1, 2, 8, 20]), rnd.choice([None, None, 2, 4])))
+        case["exports"] = exports
+        judge_export_files(ctx, case)
     # long listings: quick = the sizes up to 1025 spread over the shards (two per shard), thorough = all sizes x purposes
     sizes = [z for z in LONG_SIZES if z <= 1025] if not ctx.thorough else list(LONG_SIZES) * 3
     for zi, z in enumerate(sizes):
@@ -369,6 +423,9 @@ def run(ctx):
 
 
 def replay(ctx, monitor, case):
+    if monitor == "export_files":
+        case["exports"] = [tuple(x) for x in case["exports"]]
+        return judge_export_files(ctx, case)
     if monitor == "long_listing":
         return judge_long_listing(ctx, case)
     if monitor == "sequence":
